@@ -80,6 +80,8 @@ class Pipe:
         self.src = None
         #: FIFO of chunks (bytes) and FIN markers (None) still in flight
         self.queue = collections.deque()
+        #: on-path corruption: {stream offset: mask OR-ed into that octet} (the tap keeps what the sender wrote)
+        self.rewrite = dict((conn.net.prof.get('tcp_rewrite') or {}).get(name) or {})
 
 
 class TcpConn:
@@ -269,6 +271,15 @@ class StreamSock(SimSocketBase):
         pipe = self.tx
         seq = wld.log('tcp-send', self.conn.cid, pipe.name, pipe.total, accepted)
         pipe.tap.append((seq, wld.now, accepted))
+        if pipe.rewrite:
+            hit = [off for off in pipe.rewrite if pipe.total <= int(off) < pipe.total + size]
+            if hit:
+                arr = bytearray(accepted)
+                for off in hit:
+                    arr[int(off) - pipe.total] |= pipe.rewrite[off]
+                    wld.count('fault.tcp_rewrite')
+                    wld.log('fault', 'tcp-rewrite', pipe.name, int(off), pipe.rewrite[off])
+                accepted = bytes(arr)
         pipe.total += size
         self._schedule(pipe, accepted)
         return size
